@@ -928,3 +928,9 @@ def _obj_new(I, args, kw):
 @model('builtins.object.__init__')
 def _obj_init(I, args, kw):
     return None
+
+
+for _nm in ('numpy.ma.MaskedArray.__setattr__', 'numpy.ndarray.__setattr__', 'numpy.ma.core.MaskedArray.__setattr__'):
+    _REG[_nm] = _E().Builtin(_nm, _obj_setattr_raw, 'ndarray.__setattr__: stores the attribute on the array object')
+for _nm in ('numpy.ma.MaskedArray.__delattr__', 'numpy.ndarray.__delattr__'):
+    _REG[_nm] = _E().Builtin(_nm, _obj_delattr_raw)
